@@ -76,6 +76,7 @@ class World:
         self.record_hashes = record_hashes
         self.stopped = False
         self.nontarget_enabled = True
+        self.slow = []
         if real:
             from . import real as R
             self.R = R
@@ -440,6 +441,8 @@ class World:
         def mk_model(m):
             if any(a not in m.atoms for a in S) or len(set(S)) != len(S):
                 return None
+            if not m.buildable():
+                return None   # orphan descriptor of a removed bond: not judged
             return model.subgraph(m, S)
         self._derive(op, [op["src"]], op["dst"], mk_model, mk_real, "subgraph", {"C17"})
 
@@ -471,7 +474,9 @@ class World:
 
     def op_reverse(self, op):
         def mk_model(m):
-            return model.reverse(m) if m.is_reaction else None
+            if not m.is_reaction or not m.buildable():
+                return None   # orphan change of a removed bond: not judged
+            return model.reverse(m)
 
         def lenient(sl):
             # attributes of swapped bonds: C08 is silent; follow the real object
@@ -519,7 +524,7 @@ class World:
                     continue
                 if need and x.kind != need:
                     return None
-                if x.kind not in ("MG", "SMG"):
+                if x.kind not in ("MG", "SMG") or not x.buildable():
                     return None
             types = lambda x: {a: v["atom_type"] for a, v in x.atoms.items()}
             if types(R_) != types(P_) or not R_.atoms:
@@ -595,6 +600,11 @@ class World:
                 self.report({"C15"}, "deserialize|hang|" + model.CLASSNAME[m.kind], "")
                 return
             except Exception as e:  # noqa: BLE001
+                if not full.buildable():
+                    # orphan descriptor of a removed bond: cannot be restored
+                    # through the public mutators (not judged)
+                    self.stats["deserialize:unbuildable-rejected"] += 1
+                    return
                 self.report({"C15"}, f"deserialize|raised:{type(e).__name__}|{model.CLASSNAME[m.kind]}", repr(e))
                 return
         self.stats["fault:F6:restore"] += 1
